@@ -123,6 +123,7 @@ pub struct ConnCfg {
     pub tls: Option<Arc<rustls::ServerConfig>>,
     pub iterate_params: bool,
     pub param_probe: Option<crate::shim::ParamProbe>,
+    pub skip_iter: Vec<bool>,
 }
 
 impl ConnCfg {
@@ -133,6 +134,7 @@ impl ConnCfg {
             tls: None,
             iterate_params: true,
             param_probe: None,
+            skip_iter: Vec::new(),
         }
     }
 }
@@ -145,6 +147,7 @@ pub fn run_conn(st: SimState, cfg: ConnCfg) -> Outcome {
     shim.tls = cfg.tls;
     shim.iterate_params = cfg.iterate_params;
     shim.param_probe = cfg.param_probe;
+    shim.skip_iter = cfg.skip_iter;
     let r = {
         let sh = &mut shim;
         let tr = sim.clone();
